@@ -446,7 +446,7 @@ func redactPipelineStage(stage interface{}, redactFieldNames bool, keyPath []str
 											isSelectivelyRedactable := isRedactableFieldPatternInArray(subVTyped)
 											newSubMap.Set(subK, redactArrayValues(subVTyped, redactFieldNames, inSearchStage, isSelectivelyRedactable, append(newKeyPath, subK)))
 										default:
-											newSubMap.Set(subK, redactScalarValue([]string{k}, subV, inSearchStage, false))
+											newSubMap.Set(subK, redactScalarValue(append(newKeyPath, subK), subV, inSearchStage, false))
 										}
 									} else {
 										newSubMap.Set(subK, subV)
@@ -502,7 +502,7 @@ func redactPipelineStage(stage interface{}, redactFieldNames bool, keyPath []str
 							isSelectivelyRedactable := isRedactableFieldPatternInArray(subVTyped)
 							newSubMap.Set(redactedSubK, redactArrayValues(subVTyped, redactFieldNames, inSearchStage, isSelectivelyRedactable, append(newKeyPath, subK)))
 						default:
-							newSubMap.Set(redactedSubK, redactScalarValue([]string{k}, subV, inSearchStage, false))
+							newSubMap.Set(redactedSubK, redactScalarValue(append(newKeyPath, subK), subV, inSearchStage, false))
 						}
 					}
 					newMap.Set(redactedKey, newSubMap)
